@@ -530,26 +530,64 @@ def r6_quantity_init(rep, ctx):
     var = st.value.id
     calls = [c for c in own_nodes(fn.node) if isinstance(c, ast.Call) and isinstance(c.func, ast.Attribute) and c.func.attr == "CheckCategoryUnit"]
     rep.floor("C05.R6", "CheckCategoryUnit calls in Quantity.__init__", len(calls), 1)
-    good = []
+    P_CAT = ("param", fn.params.index("category"), "category")
+    stored_alts = set(alternatives(res.term(st.value)))
+    good = {}
     for c in calls:
         args = c.args
-        ok = len(args) == 2 and isinstance(args[0], ast.Name) and args[0].id == "category" and isinstance(args[1], ast.Name) and args[1].id == var
+        ok = len(args) == 2 and res.term(args[0]) == P_CAT and isinstance(args[1], ast.Name) and any(a_ in stored_alts for a_ in alternatives(res.term(args[1])))
         rep.check(ok, "C05.R6", "Quantity.__init__:%s:%d" % (norm(ast.unparse(c)), calls.index(c)), "the check is made for (category, the unit that will be stored)", "CheckCategoryUnit is called with %s, not with the category and the unit that is stored" % ast.unparse(c), node=c, fn=fn)
         if ok:
-            good.append(c)
-    avoid_edges = set()
-    for c in good:
-        n = cfg.node_of(c)
-        avoid_edges |= {(n, b, lab) for (b, lab) in cfg.succ[n] if lab != "exc"}
+            good[cfg.node_of(c)] = args[1].id
+    # which names hold a unit that passed the check, on every path (must): a successful check adds its argument, a plain
+    # copy `x = y` of a checked name adds x, any other binding of a name removes it; the arm where the unit is None is
+    # exempt (it takes the category's default unit)
+    none_edges = set()
     for nid in cfg.nodes("test"):
         e = cfg.ast[nid]
-        if isinstance(e, ast.Compare) and isinstance(e.left, ast.Name) and e.left.id == var and isinstance(e.comparators[0], ast.Constant) and e.comparators[0].value is None:
-            lab = "T" if isinstance(e.ops[0], ast.Is) else "F"
-            # the None arm must take the category's default unit
-            avoid_edges |= {(nid, b, l2) for (b, l2) in cfg.succ[nid] if l2 == lab}
-    # derived branch returns before the store; only the simple branch matters
-    r = cfg.reach(cfg.ENTRY, avoid_edges=avoid_edges)
-    rep.check(S not in r, "C05.R6", "Quantity.__init__:unit-checked-before-store", "every path that stores a given unit passed a successful CheckCategoryUnit(category, unit)",
+        if isinstance(e, ast.Compare) and len(e.ops) == 1 and isinstance(e.ops[0], (ast.Is, ast.IsNot)) and isinstance(e.comparators[0], ast.Constant) and e.comparators[0].value is None \
+                and res.term(e.left) == ("param", fn.params.index("unit"), "unit"):
+            none_edges.add((nid, "T" if isinstance(e.ops[0], ast.Is) else "F"))
+
+    def bound_names(x):
+        out = set()
+        if isinstance(x, (ast.Assign, ast.AugAssign, ast.AnnAssign)):
+            for t_ in (x.targets if isinstance(x, ast.Assign) else [x.target]):
+                out |= {y.id for y in ast.walk(t_) if isinstance(y, ast.Name) and isinstance(y.ctx, ast.Store)}
+        elif isinstance(x, (ast.For, ast.AsyncFor)):
+            out |= {y.id for y in ast.walk(x.target) if isinstance(y, ast.Name)}
+        elif isinstance(x, (ast.With, ast.AsyncWith)):
+            out |= {y.id for it in x.items if it.optional_vars is not None for y in ast.walk(it.optional_vars) if isinstance(y, ast.Name)}
+        elif isinstance(x, ast.ExceptHandler) and x.name:
+            out.add(x.name)
+        elif isinstance(x, (ast.Import, ast.ImportFrom)):
+            out |= {(al.asname or al.name).split(".")[0] for al in x.names}
+        return out
+
+    def transfer(n, state, lab):
+        x = cfg.ast.get(n)
+        state = set(state)
+        if x is None or lab == "exc":
+            return state
+        if isinstance(x, ast.Assign) and len(x.targets) == 1 and isinstance(x.targets[0], ast.Name) and isinstance(x.value, ast.Name):
+            if x.value.id in state:
+                state.add(x.targets[0].id)
+            else:
+                state.discard(x.targets[0].id)
+        elif cfg.kind.get(n) in ("stmt", "loop", "with", "except"):
+            state -= bound_names(x)
+            if isinstance(x, ast.Assign) and len(x.targets) == 1 and isinstance(x.targets[0], ast.Name) and (n, "T") not in none_edges:
+                vt = alternatives(res.term(x.value))
+                if vt and all(a_[0] == "attr" and a_[2] == "default_unit" for a_ in vt):
+                    state.add(x.targets[0].id)  # the category's own default unit needs no check (decided below)
+        if n in good:
+            state.add(good[n])
+        return state
+
+    IN = cfg.forward_must(set(), transfer)
+    reached = S in IN
+    checked = reached and var in IN[S]
+    rep.check(bool(good) and (checked or not reached), "C05.R6", "Quantity.__init__:unit-checked-before-store", "every path that stores a given unit passed a successful CheckCategoryUnit(category, unit) for that very unit",
               "a path stores the unit of a simple Quantity without a successful CheckCategoryUnit(category, unit): a unit outside the category's quantity type builds a Quantity", node=st, fn=fn,
               facts={"entry": fn.qual, "offending_exit": "store of _unit at line %d" % st.lineno})
     # the None arm
